@@ -11,6 +11,7 @@ use lol_html::{comments, doc_comments, doc_text, doctype, element, end_tag, text
 use std::cell::RefCell;
 use std::rc::Rc;
 mod sel;
+mod enc;
 
 // live heap bytes (C10 growth probe): a counting wrapper around the system allocator
 struct Counting;
@@ -477,6 +478,12 @@ fn main() {
             }
         }
         KNOWN_NS_STACK.with(|k| *k.borrow_mut() = ns_stack);
+    }
+    if prop == "C13" {
+        let r = enc::run_c13(max_len);
+        println!("{{\"property\":\"C13\",\"cases\":{},\"alphabet\":{:?},\"exhaustive_len\":{},\"seed_documents\":{},\"max_cuts\":1,\"encodings\":{},\"violations\":[{}]}}",
+            r.cases, format!("bytes {:02X?}", enc::BYTES), max_len, 4, r.encodings, r.violations.join(","));
+        std::process::exit(if r.violations.is_empty() { 0 } else { 1 });
     }
     if prop == "C04" {
         let r = sel::run_c04(max_len);
